@@ -1,5 +1,5 @@
 (* Num/Spec.v — specification side for numbers: well-formed lexemes and their value m * 10^e. *)
-From MV Require Import Base.Bytes Num.Model.
+From MV Require Import Base.MvBytes Num.NumModel.
 
 Definition all_digits (l : bytes) : Prop := Forall (fun c => is_digit c = true) l.
 
